@@ -45,12 +45,12 @@ CelPixel(ps, f, l, X, Y) == IF HasCel(ps, f, l) THEN Over(ps, Transparent, CelAt
 CelImage(ps, f, l) == [i \in 1..(W(ps) * H(ps)) |-> Canon(CelPixel(ps, f, l, (i - 1) % W(ps), (i - 1) \div W(ps)))]
 
 \* C02: the frame image. The layers that contribute, lowest index first.
-Contributing(ps, f) == SelectSeq([i \in 1..NL(ps) |-> i - 1], LAMBDA l : HasCel(ps, f, l) /\ Visible(ps, l))
+Contributing(ps, f) == LET vis == VisibleVec(ps) IN SelectSeq([i \in 1..NL(ps) |-> i - 1], LAMBDA l : HasCel(ps, f, l) /\ vis[l + 1])
 RECURSIVE Compose(_, _, _, _, _, _)
 Compose(ps, cs, k, B, X, Y) == IF k > Len(cs) THEN B ELSE Compose(ps, cs, k + 1, Over(ps, B, cs[k], X, Y), X, Y)
 FrameImage(ps, f) ==
   LET ls == Contributing(ps, f)
-      cs == [k \in DOMAIN ls |-> CelAt(ps, f, ls[k])]
+      cs == TLCEval([k \in DOMAIN ls |-> CelAt(ps, f, ls[k])])      \* looked up once, not once per pixel
   IN [i \in 1..(W(ps) * H(ps)) |-> Canon(Compose(ps, cs, 1, Transparent, (i - 1) % W(ps), (i - 1) \div W(ps)))]
 
 -----------------------------------------------------------------------------
